@@ -1193,6 +1193,25 @@ class Normaliser:
         ast.fix_missing_locations(func)
         return True
 
+    # ---- f(*(a, b)) -> f(a, b) ---------------------------------------------------------------------------------
+    @staticmethod
+    def splice_starred(func):
+        """a call whose starred argument is a literal tuple / list (what `operation(*args)` becomes once a *args helper is expanded) reads as the plain call"""
+        class T(ast.NodeTransformer):
+            def visit_Call(s_, node):
+                s_.generic_visit(node)
+                if any(isinstance(a, ast.Starred) and isinstance(a.value, (ast.Tuple, ast.List)) for a in node.args):
+                    new = []
+                    for a in node.args:
+                        if isinstance(a, ast.Starred) and isinstance(a.value, (ast.Tuple, ast.List)):
+                            new.extend(a.value.elts)
+                        else:
+                            new.append(a)
+                    node.args = new
+                return node
+        T().visit(func)
+        ast.fix_missing_locations(func)
+
     # ---- forward substitution of adjacent single-use temporaries ---------------------------------------------
     @staticmethod
     def forward_subst(func):
@@ -1352,6 +1371,7 @@ class Normaliser:
                         sub_ = _Rename(consts, {})
                         st.body = [sub_.visit(b) for b in st.body]
                     st.body = Normaliser.unroll(st.body)
+                    Normaliser.splice_starred(st)
                     for fn in [x for x in ast.walk(st) if isinstance(x, (ast.FunctionDef, ast.AsyncFunctionDef))]:
                         Normaliser.inline_local_closures(fn)
                         Normaliser.subst_temporaries(fn)
